@@ -1308,7 +1308,10 @@ where
 			let mut batch = Vec::with_capacity(unchecked_batch.len());
 
 			for call in unchecked_batch {
-				if let Ok(req) = deserialize_with_ext::call::from_str(call.get(), &extensions) {
+				// Every entry must be a JSON object: serde also accepts an array as the positional form of the types below.
+				if !call.get().starts_with('{') {
+					batch.push(Err(BatchEntryErr::new(Id::Null, ErrorCode::InvalidRequest.into())));
+				} else if let Ok(req) = deserialize_with_ext::call::from_str(call.get(), &extensions) {
 					batch.push(Ok(BatchEntry::Call(req)));
 				} else if let Ok(notif) = deserialize_with_ext::notif::from_str::<Notif>(call.get(), &extensions) {
 					batch.push(Ok(BatchEntry::Notification(notif)));
